@@ -134,9 +134,11 @@ OnMark(s, e) ==
     ELSE IF e.kind = "pre"
     THEN \* closure idx ran (in whichever task); its configured result decides whether the step failed
          LET code == s.c.pre[e.idx]
-         IN  IF code = 0 THEN s
-             ELSE [s EXCEPT !.failed = @ \cup {[proc |-> Proc(e.task), step |-> "pre_exec",
-                                                errno |-> IF code > 0 THEN code ELSE 0]}]
+             \* a closure that runs although an earlier one has failed: the first failure must end it
+             s0 == IF \E f \in s.failed : f.step = "pre_exec" THEN Anomaly(s, "ClosureRanAfterFailure") ELSE s
+         IN  IF code = 0 THEN s0
+             ELSE [s0 EXCEPT !.failed = @ \cup {[proc |-> Proc(e.task), step |-> "pre_exec",
+                                                 errno |-> IF code > 0 THEN code ELSE 0]}]
     ELSE s
 
 OnExit(s, e) ==
